@@ -28,7 +28,10 @@ impl<P> ReadLatch<P> {
     pub(crate) fn new(lock: &Arc<RwLock<P>>) -> Self {
         #[cfg(feature = "verif")]
         crate::verif::yield_point(crate::verif::YieldPoint::BeforeReadLatch);
-        let latch = Self(lock.read_arc());
+        // Readers re-latch pages they already hold (a scan keeps its cursor's leaf latched while `get_row_at`
+        // latches the same leaf again). A plain `read_arc` queues behind a waiting writer, so a writer arriving
+        // between the two acquisitions deadlocked the scan, the writer and every later reader of that page.
+        let latch = Self(lock.read_arc_recursive());
         #[cfg(feature = "verif")]
         crate::verif::yield_point(crate::verif::YieldPoint::AfterReadLatch);
         latch
